@@ -207,6 +207,7 @@ where
         if stop.load(Ordering::Relaxed) && !failed.get() {
             return Ok(());
         }
+        side_note(&case);
         match check(&case) {
             Ok(info) => {
                 if !failed.get() {
@@ -264,6 +265,19 @@ where
         }
     }
     (outcome, distinct.into_inner())
+}
+
+/// When `VERIF_SIDEFILE` is set, the case about to be executed is written there first, so that
+/// the driver can name the case on which the process died (possible only when the tree has
+/// undefined behaviour: double free, wild store...).
+pub fn side_note<C: Serialize>(case: &C) {
+    static PATH: std::sync::OnceLock<Option<String>> = std::sync::OnceLock::new();
+    let path = PATH.get_or_init(|| std::env::var("VERIF_SIDEFILE").ok().filter(|s| !s.is_empty()));
+    if let Some(path) = path {
+        if let Ok(bytes) = serde_json::to_vec(case) {
+            let _ = std::fs::write(path, bytes);
+        }
+    }
 }
 
 /// Installs a panic hook that prints nothing (checks catch panics and report them themselves).
